@@ -3539,7 +3539,7 @@ size_t ZSTD_generateSequences(ZSTD_CCtx* zc, ZSTD_Sequence* outSeqs,
         RETURN_ERROR_IF(nbWorkers != 0, parameter_unsupported, "nbWorkers != 0");
     }
 
-    dst = ZSTD_customMalloc(dstCapacity, ZSTD_defaultCMem);
+    dst = ZSTD_customMalloc(dstCapacity, zc->customMem);
     RETURN_ERROR_IF(dst == NULL, memory_allocation, "NULL pointer!");
 
     seqCollector.collectSequences = 1;
@@ -3550,7 +3550,7 @@ size_t ZSTD_generateSequences(ZSTD_CCtx* zc, ZSTD_Sequence* outSeqs,
 
     {
         const size_t ret = ZSTD_compress2(zc, dst, dstCapacity, src, srcSize);
-        ZSTD_customFree(dst, ZSTD_defaultCMem);
+        ZSTD_customFree(dst, zc->customMem);
         /* the collector only lives for this call : later compressions
          * with this context must produce output, not write into outSeqs */
         zc->seqCollector.collectSequences = 0;
